@@ -710,6 +710,12 @@ def _unroll_block(M, fn, stmts: List[ast.stmt], changed: List[str], top=None) ->
                     if it[0] == "kv":
                         if isinstance(st.target, ast.Tuple) and len(st.target.elts) == 2 and all(isinstance(x, ast.Name) for x in st.target.elts):
                             mp = {st.target.elts[0].id: it[1], st.target.elts[1].id: it[2]}
+                        elif isinstance(st.target, ast.Tuple) and len(st.target.elts) == 2 and isinstance(st.target.elts[0], ast.Name) and \
+                                isinstance(st.target.elts[1], (ast.Tuple, ast.List)) and isinstance(it[2], (ast.Tuple, ast.List)) and \
+                                len(st.target.elts[1].elts) == len(it[2].elts) and all(isinstance(x, ast.Name) for x in st.target.elts[1].elts):
+                            # for k, (a, b) in TABLE.items() with the values displays of that length
+                            mp = {st.target.elts[0].id: it[1]}
+                            mp.update({t_.id: v_ for t_, v_ in zip(st.target.elts[1].elts, it[2].elts)})
                         else:
                             ok = False
                     else:
@@ -731,8 +737,22 @@ def _unroll_block(M, fn, stmts: List[ast.stmt], changed: List[str], top=None) ->
                     if any(isinstance(x, ast.Name) and isinstance(x.ctx, ast.Store) and x.id in mp for b in st.body for x in ast.walk(b)):
                         ok = False
                         break
+                    # a local bound in the body and read only there is a different local in every copy of the body
+                    body_stores = {x.id for b in st.body for x in ast.walk(b) if isinstance(x, ast.Name) and isinstance(x.ctx, ast.Store)}
+                    if top is not None:
+                        private = {nm for nm in body_stores if not any(isinstance(x, ast.Name) and x.id == nm and not any(y is x for y in ast.walk(st))
+                                                                       for x in ast.walk(top))}
+                    else:
+                        private = set()
+                    j_ = len(unrolled) // max(1, len(st.body))
+
+                    class _Priv(ast.NodeTransformer):
+                        def visit_Name(self, n):
+                            if n.id in private:
+                                return ast.copy_location(ast.Name(id=f"{n.id}__u{j_}", ctx=n.ctx), n)
+                            return n
                     for b in st.body:
-                        unrolled.append(_AttrCalls().visit(_Rename(mp).visit(copy.deepcopy(b))))
+                        unrolled.append(_AttrCalls().visit(_Priv().visit(_Rename(mp).visit(copy.deepcopy(b)))))
                 if ok:
                     changed.append("unroll")
                     out.extend(unrolled)
